@@ -1,6 +1,7 @@
 package main
 
 import (
+	"sync/atomic"
 	"fmt"
 	"go/types"
 	"strings"
@@ -165,6 +166,7 @@ func init() {
 		"zzUnreachable":    inUnreachable,
 		"zzCover":          inCover,
 		"zzYield":          inYield,
+		"zzLogCount":       inLogCount,
 		"zzGuardedBy":      inGuardedBy,
 		"zzWaitIdle":       inWaitIdle,
 		"zzStrEq":          inStrEq,
@@ -426,6 +428,26 @@ func inGhostLog(e *Exec, s *State, f *Frame, fn *ssa.Function, args []Value, res
 	}
 	s.ghost = append(s.ghost, GhostEntry{Kind: kind, Args: rest})
 	return e.ret(f, result, TupleV{})
+}
+
+// zzLogCount(substr): how many log lines written so far on this path have a
+// format string containing substr (natively: lines of the captured logger).
+func inLogCount(e *Exec, s *State, f *Frame, fn *ssa.Function, args []Value, result ssa.Value) (stepResult, bool) {
+	sub := strArg(args[0])
+	n := 0
+	for _, ge := range s.ghost {
+		if ge.Kind != "log" || len(ge.Args) == 0 {
+			continue
+		}
+		fs, ok := ge.Args[0].(StrV)
+		if !ok || fs.Sym != nil {
+			panic(unsupported("zzLogCount over a symbolic log format"))
+		}
+		if strings.Contains(fs.C, sub) {
+			n++
+		}
+	}
+	return e.ret(f, result, BV(64, uint64(n)))
 }
 
 func inKnownClass(e *Exec, s *State, f *Frame, fn *ssa.Function, args []Value, result ssa.Value) (stepResult, bool) {
@@ -1448,7 +1470,33 @@ var monoTimeIntrinsics = map[string]intrinsic{
 	"time.Since": func(e *Exec, s *State, f *Frame, fn *ssa.Function, args []Value, result ssa.Value) (stepResult, bool) {
 		return stepResult{}, false
 	},
+	// the model moves only the monotonic reading: wall-clock accessors of a
+	// moved instant would be wrong, so integer accessors return an arbitrary
+	// value (sound over-approximation: nothing can be concluded from them) and
+	// the others are refused (inconclusive)
+	"(time.Time).Unix":       monoHavoc,
+	"(time.Time).UnixNano":   monoHavoc,
+	"(time.Time).UnixMilli":  monoHavoc,
+	"(time.Time).UnixMicro":  monoHavoc,
+	"(time.Time).Nanosecond": monoHavoc,
+	"(time.Time).Round":      monoRefuse,
+	"(time.Time).Truncate":   monoRefuse,
+	"(time.Time).Compare":    monoRefuse,
 }
+
+var monoHavocN int64
+
+func monoHavoc(e *Exec, s *State, f *Frame, fn *ssa.Function, args []Value, result ssa.Value) (stepResult, bool) {
+	e.h.noteAssumption("monotonic time model: wall-clock accessors (Unix, UnixNano, ...) return an unconstrained value")
+	n := atomic.AddInt64(&monoHavocN, 1)
+	return e.ret(f, result, Var(fmt.Sprintf("wallclock!%s!%d", fn.Name(), n), 64))
+}
+
+func monoRefuse(e *Exec, s *State, f *Frame, fn *ssa.Function, args []Value, result ssa.Value) (stepResult, bool) {
+	panic(unsupported(fn.String() + " under the monotonic time model (use wall-clock instants for this harness)"))
+}
+
+var _ = func() int { return 0 }
 
 // slices.overlaps: do two slices share memory? (the real body uses unsafe)
 func inSlicesOverlaps(e *Exec, s *State, f *Frame, fn *ssa.Function, args []Value, result ssa.Value) (stepResult, bool) {
